@@ -69,6 +69,12 @@ CHECKS = {
         "joblib.hash is executed on every value of a seeded recursive universe (plus the explicit near-colliding pairs of the statement) in 4 (quick) / 8 (thorough) interpreter processes with different string-hash seeds, each with two insertion-order permutations and with shared vs distinct equal strings, md5 and sha1; all digests of a value must agree and distinct canonical forms must get distinct digests (all pairs, by grouping).",
         "Canonical form defines 'same value'; aliased sub-objects, NaN in sets and ==-equal keys of different type in one container are excluded by the statement; user classes and numpy arrays are not in this universe.",
         "3/C08", "objuniverse"),
+    "C10": (
+        "fault_enumeration",
+        "fault injection into real loky workers (victims x signal x life-cycle instant, incl. death while the result message is partly written via the interposer's pipekill mode), one subprocess session per history, hang classification from paired stack dumps",
+        "Histories of 2-5 Parallel calls on the loky backend (with / without a with block, n_jobs 2-4) get one injected worker death: SIGKILL / SIGSEGV / os._exit / SIGTERM at argument unpickling, task start, mid-task, task end, result pickling, while the result message is being written (small and large), while idle between calls, or during the next call's start-up. Each call must return exactly the expected list or raise a BrokenProcessPool subclass, at most one call may fail per fault, the following call must be exact and computed by live pids, and the history must finish within the watchdog - a run that does not is a hang only when two stack dumps 10-15 s apart are identical.",
+        "Quick enumerates every instant x signal once; the cross product with victims / n_jobs / call position is sampled in thorough. Wall-clock only produces inconclusive verdicts; the known hang (partial result message) is keyed by the blocked frame, not by the instant.",
+        "3/C10", "fsshim"),
     "C13": (
         "exploration",
         "model-based runtime monitor: every operation on the real BinaryZlibFile/BinaryGzipFile is mirrored on a reference stream; stdlib decoders check produced bytes; per-operation line/CPU/address-space budgets decide non-termination",
